@@ -426,7 +426,7 @@ def r4b_from_pytorch_keeps_shapes(ctx):
     ctx.analysed(f)
     L = Canon(f.node).lines(False, True)
     text = "; ".join(ln for ln in L if ".tolist()" in ln or "add_individual_parameters" in ln or "reshape" in ln or ".view(" in ln)
-    ok = any(_re.fullmatch(r"(%\d+) = \{(%\d+): \$1\[\2\]\[(%\d+)\]\.tolist\(\) for \2 in (%\d+|\$1(\.keys\(\))?)\}", ln) for ln in L)
+    ok = any(_re.search(r"\{(%\d+): \$1\[\1\]\[(%\d+)\]\.tolist\(\) for \1 in (%\d+|\$1(\.keys\(\))?|list\(\$1(\.keys\(\))?\))\}", ln) for ln in L)
     ctx.form("C16.R4b", f, f.node, text, {text} if ok else set(), [".tolist()", "add_individual_parameters("], "per-individual value = tensor[i].tolist()",
              "from_pytorch no longer takes the per-individual values as `tensor[i].tolist()`: the shape of a parameter given as a 1-D tensor (a scalar per individual) is not preserved",
              forbidden=[r"\.reshape\(", r"\.view\(", r"\.flatten\(", r"\.unsqueeze\(", r"atleast_"], construct="per-individual values")
